@@ -20,7 +20,7 @@ structure Hook where
   /-- the event whose handler the hook calls -/
   event : Nat
   kind : Kind
-  times : Option (List Nat)
+  times : Option (List Int)
   cls : Option ClassReq
   inst : Option Nat
 deriving Repr, DecidableEq
@@ -35,13 +35,13 @@ def register (tbl : Table) (h : Hook) : Option Table :=
 
 /-- the keys under which `_add_event` files a hook: `None` without a time list, else each
 *distinct* time of the list once -/
-def keysOf (h : Hook) : List (Option Nat) :=
+def keysOf (h : Hook) : List (Option Int) :=
   match h.times with
   | none => [none]
   | some ts => ts.eraseDups.map some
 
 /-- `events_dict[kind][key]` -/
-def bucket (tbl : Table) (kind : Kind) (key : Option Nat) : List Hook :=
+def bucket (tbl : Table) (kind : Kind) (key : Option Int) : List Hook :=
   tbl.filter (fun h => h.kind = kind && (keysOf h).contains key)
 
 /-- `_check_event_class_and_instance` for a market given as (id, is an IndexMarket) -/
@@ -59,7 +59,7 @@ def filterOK (h : Hook) (market : Option (Nat × Bool)) : Bool :=
 
 /-- the hooks invoked for one occurrence, in invocation order: first the always-hooks, then the
 hooks registered for this time.  `market` is given for market-step occurrences only. -/
-def dispatch (tbl : Table) (kind : Kind) (time : Nat) (market : Option (Nat × Bool)) : List Hook :=
+def dispatch (tbl : Table) (kind : Kind) (time : Int) (market : Option (Nat × Bool)) : List Hook :=
   ((bucket tbl kind none) ++ (bucket tbl kind (some time))).filter (fun h => filterOK h market)
 
 end Pams.Hooks
